@@ -3143,3 +3143,11 @@ V(id='c08-exponent-through-str', prop='C08', file='mpmath/libmp/libmpf.py',
 V(id='c08-exponent-through-percent', prop='C08', file='mpmath/libmp/libmpf.py',
   old='    if exponent < 0: return sign + digits + "e" + numeral(exponent)\n', new='    if exponent < 0: return sign + digits + ("e%i" % exponent)\n',
   expect='fire:W-R7:to_str')
+
+# ---- C38 X-R16 (fourth hunt; hsteps) ----
+V(id='c38-hsteps-point-not-converted', prop='C38', file='mpmath/calculus/differentiation.py',
+  old="    x = ctx.convert(x)\n    try:\n        ctx.prec = workprec\n", new="    try:\n        ctx.prec = workprec\n", expect='fire:X-R16:hsteps')
+V(id='c38-hsteps-point-converted-too-late', prop='C38', file='mpmath/calculus/differentiation.py',
+  edits=[("    x = ctx.convert(x)\n    try:\n        ctx.prec = workprec\n", "    try:\n        ctx.prec = workprec\n"),
+         ("        values = [f(x+k*h) for k in steps]\n", "        values = [f(x+k*h) for k in steps]\n        x = ctx.convert(x)\n")],
+  expect='fire:X-R16:hsteps')
